@@ -337,7 +337,9 @@ int EGLPNUM_TYPENAME_ILLread_lp_state_has_colon (
 	char *pp;
 
 	EGLPNUM_TYPENAME_ILLread_lp_state_skip_blanks (state, 0);
-	for (pp = state->p; *pp != '\n'; pp++)
+	/* the line ends at its NUL: the last line of a file need not have a newline,
+	 * and a stripped comment leaves its text behind the terminator */
+	for (pp = state->p; *pp != '\n' && *pp != '\0'; pp++)
 	{
 		if (*pp == ':')
 		{
